@@ -319,6 +319,9 @@ def run(project, chk):
                             if r[0] == "call" and r[1] in PARSERS and r[2]:
                                 src = r[2][0]
                                 ok = src[0] == "call" and src[1] == ".read" and src[4] is not None and src[4][0] == "with" and src[4][1][0] == "call" and src[4][1][1] == "builtins.open" and src[4][1][2] and src[4][1][2][0] == ("elem", org.of(cfg.loops[0]["iter"], floop.iter) if False else src[4][1][2][0][1]) and src[4][1][2][0][0] == "elem"
+                                if not ok and src[0] == "call" and src[1] == ".read" and src[4] is not None and src[4][0] == "call" and src[4][1] == "builtins.open" and src[4][2] and src[4][2][0][0] == "elem" \
+                                        and len(src[4][2]) > 1 and src[4][2][1][0] == "const" and isinstance(src[4][2][1][1], str) and set(src[4][2][1][1]) <= set("rbt"):
+                                    ok = True       # open(<this input file>, "r").read()  (Path.read_text)
                         chk.check(ok, "Q4", main.short, norm_text(c), project.loc(m, c), "the output is serialize(parse_stylesheet(<text read from this input file>))", how=f"origin: {oshow(o)[:160]}",
                                   message=f"what is written is {oshow(o)[:200]}, not the serialisation of this file's own parsed rules")
     chk.floor("output write sites in main", n_out, 1)
